@@ -102,7 +102,7 @@ PROPS = {
             {"name": "race-servers", "quick": 16000, "thorough": 1000000, "thorough_time": 150, "extra": ["-sim.only=race"]},
         ],
         "require_hits": ["resource.gau.commit", "bus.send.each", "router.get.insert", "electric.mu"],
-        "assumptions": ["tasks keep only task-local harness state; nothing is compared across tasks"],
+        "assumptions": ["tasks keep only task-local harness state; nothing is compared across tasks", "conflicting accesses that are separated by an advance of the fake clock are not visible to the race detector: testing/synctest itself synchronises there (release on durable block, acquire when the bubble's time moves on)"],
     },
     "C19": {
         "level": "exploration",
